@@ -14,7 +14,7 @@ import SdnsVerif.Model.Packer
   runs over the primitive "emit that many bytes if they fit" → `handled=t len=<n>` | `handled=f`.
 * `msg write <directPack> <internal> lib=<outcome>` → the model's `writeMsg` on the skeleton of the preceding
   `msg decide`: `direct:ok/<n> size=<n>` | `lib:<outcome>`
-* `msg serve <ub|ud|ts|tl> <directPack> lib=<outcome> ulen=<n>` → the model's `udpWrite`/`udpWriteMsg`/`tcpStage` beneath
+* `msg serve <ub|ud|ts|tl> <directPack> <-|abort|abort2|commit> lib=<outcome> ulen=<n>` → the model's `udpWrite`/`udpWriteMsg`/`tcpStage` beneath
   `writeMsg` on the same skeleton: `sent=ok/<n>` | `sent=none err` | `panic`
 * `cache view <kinds>` → what admission keeps for that additional section: `ar=<n> compress=t` | `not-admitted` | `panic`
 * `pool own <events>` → `dup=f|t`: the ownership model run over the endings `ok|err|werr|panic|fail|decl`
@@ -170,9 +170,9 @@ def step (st : State) (w : List String) : State × String :=
     match decide rest with
     | some (o, sk) => ({ st with last := some sk }, o)
     | none => (st, "bad-op")
-  -- `msg serve <ub|ud|ts|tl> <directPack> lib=<outcome> ulen=<n>`: `udpReply` / `tcpReply` on the last skeleton;
+  -- `msg serve <ub|ud|ts|tl> <directPack> <-|abort|abort2|commit> lib=<outcome> ulen=<n>`: `udpReply` / `tcpReply` on the last skeleton;
   -- the library's outcome for the message is an observation (`ok/<len>`: that many bytes)
-  | ["msg", "serve", tr, dp, libo, ul] =>
+  | ["msg", "serve", tr, dp, hist, libo, ul] =>
     match st.last, parseBool dp, kv "lib" libo, (kv "ulen" ul).bind String.toNat? with
     | some sk, some d, some lo, some ulen =>
       let pst : PState Rest (List (Option Nat)) := { buf := List.replicate packBufferSize 0x55 }
@@ -184,19 +184,26 @@ def step (st : State) (w : List String) : State × String :=
           | some n => .ok (List.replicate n 0)
           | none => .err .pack
         else if lo == "panic" then .panic else .err .pack
+      if !(["-", "abort", "abort2", "commit"].contains hist) then (st, "bad-op") else
+      -- a committed lease IS the reply (the library's bytes, built in the slab); an aborted one leaves junk in the slab
+      let commit := hist == "commit" && lo.startsWith "ok/"
       if lo == "panic" && !(d && (tryPack lib sk.m heap pst).handled) then (st, "panic") else
       -- the transport's own pack of a declined message is the observed library outcome
       let viaWrite := match (writeMsg lib sk.m heap pst d false).events with
         | [.write b] => some b
         | _ => none
       if tr == "ub" || tr == "ud" then
-        let j : UdpJob := { tx := List.replicate 4096 0xEE }
-        let r := match viaWrite with
+        let j : UdpJob := { tx := if hist == "-" || commit then List.replicate 4096 0xEE
+                                  else List.replicate 900 0xDD ++ List.replicate 3196 0xEE }
+        let r := if commit then (match libOut with
+            | .ok b => udpCommit j b
+            | _ => (j, false))
+          else match viaWrite with
           | some b => udpWrite j b false
           | none => udpWriteMsg j libOut ulen
         if r.2 then (st, s!"sent=ok/{r.1.staged.length}") else (st, "sent=none err")
       else if tr == "ts" || tr == "tl" then
-        let r := match viaWrite with
+        let r := match (if commit then none else viaWrite) with
           | some b => tcpStage {} b
           | none => match libOut with
             | .ok b => tcpStage {} b
